@@ -18,10 +18,10 @@ func init() { checkers["C02"] = checkC02 }
 func checkC02(run *Run, res *Result) {
 	cfg := &run.Cfg
 	stored := map[int]*journal.Off{}
-	high := map[int]map[int]uint64{}   // member -> vb -> H of the session's own seqno query
-	flog := map[vbKey][]uint64{}       // failover log the node returned to this member for the vb
-	firstReq := map[vbKey]bool{}       // first request of the session seen
-	sessionHadDoc := map[int]bool{}    // member -> at session open, some assigned vBucket had a checkpoint
+	high := map[int]map[int]uint64{}              // member -> vb -> H of the session's own seqno query
+	flog := map[vbKey][]uint64{}                  // failover log the node returned to this member for the vb
+	firstReq := map[vbKey]bool{}                  // first request of the session seen
+	sessionHadDoc := map[int]bool{}               // member -> at session open, some assigned vBucket had a checkpoint
 	sessionDocs := map[int]map[int]*journal.Off{} // member -> snapshot of the store when the session began loading
 	writesRO := 0
 	for i := range run.Evs {
